@@ -52,6 +52,21 @@ AD_OP(eigen_map) {
     Eigen::Map<ESM> M(a.n, a.m, (long)a.col.size(), a.ptr.data(), a.col.data(), a.val.data());
     return view(M, x);
 }
+// an Eigen matrix in UNCOMPRESSED mode (reserve + insert, never makeCompressed): a row occupies
+// [outer[i], outer[i] + innerNonZeros[i]) and is followed by reserved, unused slots (poisoned below so that a row
+// iterator that walks outer[i] .. outer[i+1] is seen)
+AD_OP(eigen_unc) {
+    Arr a(t); std::vector<double> x = t.vecT<double>();
+    ESM E(a.n, a.m);
+    std::vector<int> res(a.n);
+    for (long i = 0; i < a.n; ++i) res[i] = (a.ptr[i + 1] - a.ptr[i]) + 1 + (int)(i % 3);
+    E.reserve(res);
+    for (long i = 0; i < a.n; ++i) for (int j = a.ptr[i]; j < a.ptr[i + 1]; ++j) E.insert((int)i, a.col[j]) = a.val[j];
+    if (E.isCompressed()) return "EXC harness: matrix is compressed";
+    for (long i = 0; i < a.n; ++i)
+        for (int j = E.outerIndexPtr()[i] + E.innerNonZeroPtr()[i]; j < E.outerIndexPtr()[i + 1]; ++j) { E.valuePtr()[j] = 0.375; E.innerIndexPtr()[j] = 0; }
+    return view(E, x);
+}
 AD_OP(ublas) {
     Arr a(t); std::vector<double> x = t.vecT<double>();
     namespace ub = boost::numeric::ublas;
